@@ -26,9 +26,11 @@ var rule = fmt.Sprintf("Struct family (types.go): Strs, Nums, Opts (attr/optiona
 	"-- blocks sharing a label prefix with their predecessor become sibling properties of one object / sibling elements of one array, blocks with identical labels one array of bodies, a reappearing label a repeated property name -- with objects / with arrays; each x literal-only / template mode) which must decode to the same value. "+
 	"Oracle 3: every single edit of the document of each value whose swept strings have <= 1 atom of the base atoms (all structural cases, all single-base-atom strings, the diagonal of the pair positions) (delete/duplicate an item, add an unexpected attribute / block, attribute<->block, add / remove a label, replace an attribute value by each of 16 literals of other types -- the latter only for the non-swept, structural values) in both syntaxes, and every single line deletion / duplication of the real encoder's output, must decode without panic; "+
 	"unexpected items and missing required attributes must give error diagnostics, a missing optional attribute must give the value with that field zero (doc.go). "+
-	"thorough: additionally strings of <= 3 atoms over the alphabet extended by {CR, NUL, U+2028, ~, U+FFFD, U+00AD, U+3000, U+10FFFD} (%d strings) at every single string position, all pairs of <= 2-atom strings at the two-element positions and all ordered triples of 4- and 5-label sibling blocks (no perturbations for these). "+
+	"thorough: additionally, at every single string position, strings of <= 3 atoms over the base atoms and {CR, NUL, DEL, U+2028, ~, U+FFFD, U+0085, U+E0001} and strings of <= 2 atoms over the quick alphabet extended by {CR, NUL, U+2028, ~, U+FFFD, U+00AD, U+3000, U+10FFFD} (%d strings together); "+
+	"at the two-element positions all pairs of strings of <= 2 base atoms or one non-printable atom (%dx%d); all ordered triples of 4- and 5-label sibling blocks (no perturbations for these). "+
 	"Non-trivial = the round trip succeeded (sig = generated source) or the perturbed document was decoded (sig = edit, outcome, diagnostic summaries or decoded value).",
-	len(strs(atomsQuick, 2)), len(strs(atomsQuick, 1)), len(strs(atomsQuick, 1)), len(strs(atomsExt, 3)))
+	len(strs(atomsQuick, 2)), len(strs(atomsQuick, 1)), len(strs(atomsQuick, 1)),
+	len(union(strs(atomsExt3, 3), strs(atomsExt, 2))), len(union(strs(atomsBase, 2), strs(atomsQuick, 1))), len(union(strs(atomsBase, 2), strs(atomsQuick, 1))))
 
 // atomsBase: the escape-relevant characters of the native and JSON syntaxes.
 var atomsBase = []string{"a", " ", "\"", "\\", "$", "%", "{", "}", "\n", "\t", "é", "\U0001F600", "${", "%{"}
@@ -42,8 +44,29 @@ var atomsNonPrint = []string{"\x7f", "\u0085", "\u00a0", "\u200b", "\ufeff", "\u
 var atomsQuick = append(append([]string{}, atomsBase...), atomsNonPrint...)
 
 // atomsExt adds CR, NUL, U+2028 (Zl), ~, U+FFFD, U+00AD (Cf, 2 bytes), U+3000
-// (Zs, 3 bytes) and U+10FFFD (Co, 4 bytes).
+// (Zs, 3 bytes) and U+10FFFD (Co, 4 bytes); the thorough tier takes all
+// strings of <= 2 atoms over it.
 var atomsExt = append(append([]string{}, atomsQuick...), "\r", "\x00", "\u2028", "~", "\ufffd", "\u00ad", "\u3000", "\U0010FFFD")
+
+// atomsExt3: the alphabet of the thorough tier's <= 3-atom strings: the base
+// atoms, the ASCII controls, U+2028, ~, U+FFFD and a 2-byte and a 4-byte
+// non-printable rune.
+var atomsExt3 = append(append([]string{}, atomsBase...), "\r", "\x00", "\x7f", "\u2028", "~", "\ufffd", "\u0085", "\U000E0001")
+
+// union returns a followed by the elements of b that are not in a.
+func union(a, b []string) []string {
+	seen := map[string]bool{}
+	var out []string
+	for _, l := range [][]string{a, b} {
+		for _, s := range l {
+			if !seen[s] {
+				seen[s] = true
+				out = append(out, s)
+			}
+		}
+	}
+	return out
+}
 
 var keyAlphabet = []string{"a", "for", "if", "in", "else", "null", "true", "false", "", "a b", "0", "a.b", "-", "a-b", "é", "${x}"}
 
@@ -148,7 +171,7 @@ func gen(tier string, emit func(engine.Case) bool) {
 	}
 	run(bounds{S: strs(atomsQuick, 2), P: strs(atomsQuick, 1), Trip: 3, pert: true})
 	if tier == "thorough" {
-		run(bounds{S: strs(atomsExt, 3), P: strs(atomsQuick, 2), Trip: 5, pert: false})
+		run(bounds{S: union(strs(atomsExt3, 3), strs(atomsExt, 2)), P: union(strs(atomsBase, 2), strs(atomsQuick, 1)), Trip: 5, pert: false})
 	}
 }
 
